@@ -243,7 +243,7 @@ class SessionLog:
         self.problems = []  # harness-level problems (afp mismatch, caseerr, ...)
 
     def nt(self):
-        return {0xFFFF: 0, 0x7778: 32}.get(self.ids[2], 16)
+        return {0xFFFF: 0, 0x7778: 32, 0x777A: 20}.get(self.ids[2], 16)
 
     def case_text(self, upto=None):
         lines = [self.header]
